@@ -182,6 +182,7 @@ Proof.
       * apply VT_resize; cbn; auto; try lia.
         rewrite curs_new, map_upd, RC_app_none. cbn [t_cur set_pc]. rewrite upd_same by exact Hcur. auto.
   - inversion H; subst; clear H. apply VT_stutter; try pools; runsame Hth.
+  - inversion H; subst; clear H. apply VT_stutter; try pools; runsame Hth.
   - (* RUnlock *)
     destruct (finish_op cfg tid th (sg s)) as [th' g'] eqn:Hfin. inversion H; subst; clear H.
     assert (Ec : t_cur th = None) by (apply HcurNone; auto; right; rewrite Epc; cbn; repeat split; congruence).
